@@ -42,13 +42,13 @@ var Patterns = []string{
 const MinPackages = 20
 
 type Prog struct {
-	Repo  string
-	Fset  *token.FileSet
-	Roots []*packages.Package          // repo packages (both modules)
-	All   map[string]*packages.Package // every package reachable, by path
-	Deep  bool                         // true when dependencies carry syntax too
-	Files map[string]string            // analysed repo file -> sha256
-	GOOS  string
+	Repo   string
+	Fset   *token.FileSet
+	Roots  []*packages.Package          // repo packages (both modules)
+	All    map[string]*packages.Package // every package reachable, by path
+	Deep   bool                         // true when dependencies carry syntax too
+	Files  map[string]string            // analysed repo file -> sha256
+	GOOS   string
 	GOARCH string
 
 	funcDecl map[*types.Func]*FuncInfo
